@@ -5,7 +5,8 @@
 #   and runs the named quick checks (default <PID>) against the mutated copy.
 # On success stores /verif/seeded/<PID>-<k>/{patch.diff,demo.py,notes.md,meta.json}.
 PID="$1"; K="$2"; shift 2
-CHECKS="${*:-$PID}"
+PROP="${PID%b}"; PROP="${PROP%c}"          # second / third round directories are named <ID>b, <ID>c
+CHECKS="${*:-$PROP}"
 SRC=/tmp/mut/$PID
 S=$(mktemp -d /tmp/cm-$PID-$K-XXXXXX)
 git -C /repo archive HEAD | tar -x -C "$S"
@@ -29,15 +30,15 @@ echo "CONFIRM $PID-$K demo_clean=$clean_rc demo_mut=$mut_rc baseline='$base_out'
 if [ $ok = 1 ]; then
   D=/verif/seeded/$PID-$K; mkdir -p "$D"
   cp "$SRC/mutant$K.diff" "$D/patch.diff"; cp "$SRC/demo$K.py" "$D/demo.py"; cp "$SRC/notes$K.md" "$D/notes.md" 2>/dev/null
-  /venv/bin/python - "$D" "$PID" "$K" "$clean_rc" "$mut_rc" "$base_out" "[${res%,}]" <<'PY'
+  /venv/bin/python - "$D" "$PROP" "$K" "$clean_rc" "$mut_rc" "$base_out" "[${res%,}]" "$PID" <<'PY'
 import json, sys, re
-d, pid, k, c, m, base, res = sys.argv[1:8]
+d, pid, k, c, m, base, res, mid = sys.argv[1:9]
 notes = open(d + "/notes.md").read() if __import__("os").path.exists(d + "/notes.md") else ""
-json.dump({"property": pid, "mutant": f"{pid}-{k}", "source": "independent sub-agent (given only the property text and a scratch worktree)",
+json.dump({"property": pid, "mutant": f"{mid}-{k}", "source": "independent sub-agent (given only the property text and a scratch worktree)",
            "needs_to_manifest": notes[:1500],
            "confirmed": {"repo_head": __import__("subprocess").check_output(["git", "-C", "/repo", "rev-parse", "--short", "HEAD"], text=True).strip(),
                          "demo_exit_clean_tree": int(c), "demo_exit_mutated_tree": int(m), "pinned_suite_on_mutated_tree": base,
-                         "commands": ["tools/confirm_mutant.sh %s %s" % (pid, k)]},
+                         "commands": ["tools/confirm_mutant.sh %s %s" % (mid, k)]},
            "quick_checks_on_mutated_tree": json.loads(res)}, open(d + "/meta.json", "w"), indent=1)
 PY
 fi
